@@ -112,6 +112,9 @@ def run(vc):
     from contracts import C02_build, C02_trafo
     C02_build.run(vc)
     C02_trafo.run(vc)
+    # bus injections at the slack bus: the fast result routine (slack power = loads + branch losses) is selected only without shunts
+    from contracts import C01
+    C01.run_pfsoln_choice(vc)
 
 
 def run_results(vc):
@@ -232,6 +235,9 @@ def classify(ob, model):
 
 
 def replay(ob, model, finding=None):
+    if ob.meta.get("part") == "pfsoln-choice":
+        from contracts import C01
+        return C01.replay(ob, model, finding)
     lab = ob.meta.get("label", "")
     script = f"""# replay of {ob.id}
 # oracle (C02): reported branch results vs. an independent implementation of the documented element models on the solved voltages
